@@ -136,6 +136,18 @@ def has_huge_constant(root):
     return False
 
 
+def has_unprintable_constant(root):
+    """An integer so large that printing it would take minutes."""
+    for n in A.preorder(root):
+        if A.kind(n) == "ConstantExpression":
+            v = n.value
+            if hasattr(v, "item") and hasattr(v, "dtype"):
+                v = v.item()
+            if isinstance(v, int) and v.bit_length() > 20000:
+                return True
+    return False
+
+
 def build_tree(ctx, case):
     """G-tree: parse(text) then the case's pre-rewrites. Returns root or None (rejected / excluded)."""
     root = parse(case["text"])
@@ -179,8 +191,8 @@ def build_tree(ctx, case):
 
 def text_of(root):
     try:
-        if has_huge_constant(root):
-            return "<tree with a constant beyond 10^10>"
+        if has_unprintable_constant(root):
+            return "<tree with an enormous integer constant>"
         return str(root)
     except Exception as e:
         return f"<unprintable: {type(e).__name__}>"
